@@ -22,6 +22,8 @@ def main():
     cmd = [os.path.join(HERE, 'tools', 'with_mutant.py')]
     if 'revert' in m:
       cmd += ['--revert', m['revert']]
+    if 'patch' in m:   # path relative to /verif (e.g. a stored seeded change)
+      cmd += ['--patch', os.path.join(HERE, m['patch'])]
     for f, old, new in m.get('replace', []):
       cmd += ['--replace', f, old, new]
     cmd += ['--', './check', pid, '--no-evidence', '--tier', m.get('tier', 'quick')]
